@@ -72,13 +72,27 @@ structure Plain (c : Cfgable) (args : List Val) (kwargs : AList String Val) : Pr
   kwargs : ∀ kv ∈ kwargs, kv.2.isRequired = false
   sig : c.requiredKwargs = []
 
-theorem requiredPositions_nil (names : List String) (args : List Val)
-    (h : ∀ a ∈ args, a.isRequired = false) : requiredPositions names args = [] := by
-  unfold requiredPositions
-  rw [List.filterMap_eq_nil_iff]
-  rintro ⟨i, n, a⟩ hm
-  have : a ∈ args := (List.of_mem_zip (List.of_mem_zip hm).2).2
-  simp [h a this]
+theorem reqNamesOf_nil (names : List String) (args : List Val)
+    (h : ∀ a ∈ args, a.isRequired = false) : reqNamesOf names args = [] := by
+  induction names generalizing args with
+  | nil => simp [reqNamesOf]
+  | cons n ns ih =>
+    cases args with
+    | nil => simp [reqNamesOf]
+    | cons a as =>
+      simp only [reqNamesOf, h a (by simp), Bool.false_eq_true, if_false]
+      exact ih as (fun x hx => h x (by simp [hx]))
+
+theorem substArgs_plain (names : List String) (args : List Val) (kw : AList String Val)
+    (h : ∀ a ∈ args, a.isRequired = false) : substArgs names args kw = args := by
+  induction names generalizing args with
+  | nil => simp [substArgs]
+  | cons n ns ih =>
+    cases args with
+    | nil => simp [substArgs]
+    | cons a as =>
+      simp only [substArgs, h a (by simp), Bool.false_eq_true, if_false]
+      rw [ih as (fun x hx => h x (by simp [hx]))]
 
 /-- Without REQUIRED markers the wrapper passes the positional arguments through, drops the
     bindings of the positionally supplied names, evaluates the rest and lets caller keywords win. -/
@@ -88,7 +102,8 @@ theorem wrapper_plain (ev : Val → Val) (c : Cfgable) (cfg : Store) (σ : Scope
       ({ args := args,
          kwargs := update (evalKw ev (popAll (getBindings cfg c.selector σ)
                       (c.sig.args.take args.length))) kwargs }, op) := by
-  have hreq := requiredPositions_nil (c.sig.args.take args.length) args hp.args
+  have hreq := reqNamesOf_nil (c.sig.args.take args.length) args hp.args
+  have hsub := fun kw => substArgs_plain (c.sig.args.take args.length) args kw hp.args
   have hva : (args.drop (c.sig.args.take args.length).length).any Val.isRequired = false := by
     rw [List.any_eq_false]
     intro a ha
@@ -96,13 +111,12 @@ theorem wrapper_plain (ev : Val → Val) (c : Cfgable) (cfg : Store) (σ : Scope
   have hcr : (kwargs.filter (fun kv => kv.2.isRequired)) = [] := by
     rw [List.filter_eq_nil_iff]
     intro kv hkv; simp [hp.kwargs kv hkv]
+  have hft : ∀ (l : List String), l.filter (fun _ => true) = l := fun l => by simp
   unfold wrapperCall phaseA
   simp only [hva, Bool.false_eq_true, if_false, hreq, List.map_nil, hcr]
-  simp only [phaseC, substPositional, hp.sig, List.zip_nil_left, List.filter_nil, List.append_nil,
+  simp only [phaseC, hsub, hp.sig, List.filter_nil, List.append_nil,
     List.isEmpty_nil, Bool.not_true, Bool.false_eq_true, if_false, List.contains_nil,
-    Bool.not_false]
-  have hft : ∀ (l : List String), l.filter (fun _ => true) = l := fun l => by simp
-  simp only [hft]
+    Bool.not_false, hft]
   exact ⟨_, rfl⟩
 
 /-- C01, at the wrapper: (a) positional arguments pass through unchanged; (b) every caller keyword
